@@ -29,7 +29,9 @@ RULE = ('1-8 coroutines whose bodies replay a script of yield values (None, '
         'started in different frames under uneven dt.'
         ' Rounds 9-13 added: 5-16 sleepers (distinct or equal waits) of'
         ' which some are killed and restarted while asleep; bodies raising'
-        ' exceptions that are not Exceptions.')
+        ' exceptions that are not Exceptions.'
+        ' Round 14 added: a coroutine that yields NaN (the others must wake'
+        ' on time).')
 ANCHORS = [
     'desper/logic/coroutines.py::CoroutineProcessor.start',
     'desper/logic/coroutines.py::CoroutineProcessor.process',
